@@ -27,12 +27,9 @@ DRIVER = "drv_files"
 THEOREMS = [
     "C19.loaded_once",
     "C19.loaded_sound",
+    "C19.loaded_complete",
+    "C19.exact",
     "C19.ids_right",
-    "C19.loaded_complete_counterexample",
-    "C19.loaded_complete_partial",
-    "C19.exact_partial",
-    "C19.loaded_complete_fixed",
-    "C19.exact_fixed",
     "C19.error_loud",
     "C19.loads_when_loadable",
     "C19.dup_id",
@@ -43,16 +40,7 @@ THEOREMS = [
     "C19.checker_expected",
     "C19.checker_exact",
 ]
-PARTIAL = {
-    "C19.loaded_complete_partial": "full statement C19.loaded_complete_statement is refuted by C19.loaded_complete_counterexample "
-    "(finding C19-F13): needs the hypothesis NoInitPrefixed (no reached file name starts with '__init__' other than the module "
-    "'__init__' itself), or Cfg.initDot = true, i.e. the repaired look-ahead (?!\\.\\#|__init__\\.), for which "
-    "C19.loaded_complete_fixed / C19.exact_fixed are the full-strength theorems (the harness selects initDot from the behaviour of "
-    "the regexes of the tree under test)",
-    "C19.dup_id_expected": "same side condition as C19.exact_partial (C19.dup_id, stated over the loaded files, is full)",
-    "C19.exact_partial": "same hypothesis NoInitPrefixed as C19.loaded_complete_partial (the 'nothing else' and 'once' halves, "
-    "C19.loaded_sound and C19.loaded_once, are full)",
-}
+PARTIAL = {}
 TRUSTED = [
     "the abstract filesystem handed to the model is read back from the real scratch tree by harness/files_fs.py "
     "(os.scandir, os.path.realpath, os.path.exists); os.walk order, realpath and byte-code loading are the platform's",
@@ -98,8 +86,8 @@ def stream_match(ctx, n):
     names = [gen_name(rng) for _ in range(n)]
     ops = []
     for nm in names:
-        ops.append({"op": "files.match", "name": nm, "sourceless": True, "initDot": F.INIT_DOT})
-        ops.append({"op": "files.match", "name": nm, "sourceless": False, "initDot": F.INIT_DOT})
+        ops.append({"op": "files.match", "name": nm, "sourceless": True})
+        ops.append({"op": "files.match", "name": nm, "sourceless": False})
     ans = ctx.drv.ask(ops)
     for i, nm in enumerate(names):
         for k, (key, sl) in enumerate((("sourceless", True), ("source", False))):
@@ -260,7 +248,7 @@ def run_tree(ctx, plan, settings, pending):
             # the locations as the implementation resolved them
             locs = [sc.scan_location(p) for p in impl["resolved"]]
             split_op = {"op": "files.split", "sep": sep if vl is not None else None, "pathsep": os.pathsep, "s": vl}
-            base = {"fs": fs, "cfg": {"sourceless": sourceless, "recursive": recursive, "initDot": F.INIT_DOT}, "locs": locs}
+            base = {"fs": fs, "cfg": {"sourceless": sourceless, "recursive": recursive}, "locs": locs}
             names = {i: n["path"] for i, n in enumerate(sc.nodes)}
             pending.append((inp, impl, split_op, base, names, sc.root))
 
@@ -342,8 +330,6 @@ def flush(ctx, pending):
         extra = [n for n in lnodes if n not in exp]
         firstbad = [f for f in ("once", "onlyExpected", "allExpected", "idsRight", "keysRight", "dupReported") if not spec[f]]
         tags = list(firstbad)
-        if firstbad == ["allExpected"] and missing and all(init_prefixed(os.path.basename(names[n])) for n in missing):
-            tags.append("init-prefix-only")
         ctx.fail(inp, "%s: settings %s; missing %s; unexpected %s; loaded %s; duplicate-id warnings %s" % (
             firstbad[0], small, [names.get(n) for n in missing], [names.get(n) for n in extra],
             [[names.get(n), r] for n, r in impl["loaded"]], impl["dupWarn"]),
@@ -351,10 +337,6 @@ def flush(ctx, pending):
                   "expected": [names.get(n) for n in exp], "verdict": {f: spec[f] for f in ("once", "onlyExpected", "allExpected", "idsRight", "keysRight", "dupReported")}},
             tags=tags)
     pending.clear()
-
-
-def init_prefixed(name):
-    return name.startswith("__init__") and not name.startswith("__init__.")
 
 
 def gen_settings(rng):
@@ -418,7 +400,6 @@ def stream_forms(ctx):
 
 
 def run(ctx):
-    ctx.extra["regex_lookahead"] = "(?!\\.\\#|__init__\\.) [repaired]" if F.INIT_DOT else "(?!\\.\\#|__init__) [pinned: finding C19-F13 applies]"
     if F.PYO_LOADABLE:
         ctx.note("this interpreter can load .pyo files; they are modelled with their real content")
     stream_match(ctx, 6000 if ctx.thorough else 1500)
@@ -436,9 +417,7 @@ def search(ctx):
 # --------------------------------------------------------------------------------------
 
 def classify(failure):
-    tags = failure.get("tags", [])
-    if "init-prefix-only" in tags:
-        return "C19-F13-init-prefix"
+    # no open findings: C19-F13 (names starting with __init__ skipped) is fixed in 8adcad9 and suppresses nothing
     return None
 
 
